@@ -176,6 +176,7 @@ pub fn run_gen(p: &Profile, cfg: &RunCfg) -> (RunOut, MonOut) {
         let flag = WakeFlag::new();
         flag.flag.store(true, Ordering::SeqCst); // first poll
         let mut finished = false;
+        let mut claimed_terminated: Option<usize> = None;
         let mut pending_polls_without_progress = 0u32;
         let mut polls = 0u64;
         while !finished && steps < 2000 {
@@ -249,6 +250,19 @@ pub fn run_gen(p: &Profile, cfg: &RunCfg) -> (RunOut, MonOut) {
                     },
                 }
                 drop(_g);
+                // FusedStream contract: once is_terminated() is true the stream must not be polled
+                // again, so it must not be true while items or the completion are still to come
+                if !finished {
+                    let term = match &consumer {
+                        Consumer::Raw(s) => s.is_terminated(),
+                        Consumer::Yielded(s) => s.is_terminated(),
+                        Consumer::Try(s) => s.is_terminated(),
+                        Consumer::Complete(_) => false,
+                    };
+                    if term && claimed_terminated.is_none() {
+                        claimed_terminated = Some(evlog.lock().unwrap().len());
+                    }
+                }
                 if evlog.lock().unwrap().len() == before {
                     pending_polls_without_progress += 1;
                 } else {
@@ -341,6 +355,12 @@ pub fn run_gen(p: &Profile, cfg: &RunCfg) -> (RunOut, MonOut) {
                 if log_v[pos..].iter().any(|e| matches!(e, Ev::Received(_))) {
                     mon.viol(pr, "R1", "order", "an item was received after the completion".to_string());
                 }
+            }
+        }
+        if let Some(at) = claimed_terminated {
+            mon.count("R1.is_terminated_checked");
+            if log_v[at..].iter().any(|e| matches!(e, Ev::Received(_) | Ev::Complete(_))) {
+                mon.viol(pr, "R1", "is_terminated", format!("is_terminated() was true although the stream still had to deliver {:?} ({sig})", &log_v[at..]));
             }
         }
         // R2: code after a yield runs only after the consumer took the item
